@@ -50,12 +50,6 @@ func probe(a arg) (string, string) {
 	if g := fmt.Sprintf("%v|%s", s, s); g != plain+"|"+plain {
 		return "sprintf", fmt.Sprintf("%%v|%%s of Size(%d) = %q want %q", a.S, g, plain)
 	}
-	if g := s.BytesString(); g != oracle.Decimal(a.S) {
-		return "bytesstring", fmt.Sprintf("BytesString = %q", g)
-	}
-	if g := s.BytesJSONNumber().String(); g != oracle.Decimal(a.S) {
-		return "bytesjsonnumber", fmt.Sprintf("BytesJSONNumber = %q", g)
-	}
 	return "", ""
 }
 
